@@ -52,7 +52,7 @@ from circuits.core.pollers import BasePoller, _read as p_read, _write as p_write
 from circuits.io import events as ioev
 from circuits.io.file import File
 from circuits.net import events as netev
-from circuits.net.sockets import TCPClient, TCPServer, UNIXClient
+from circuits.net.sockets import TCPClient, TCPServer, UNIXClient, UNIXServer
 from vlib import driver
 from vlib.runner import Prop, Result
 
@@ -62,7 +62,8 @@ ENUM_OUTCOMES = ('all', 2, 'EAGAIN', 'EWOULDBLOCK', 'EINTR', 'ENOBUFS', 'EPIPE',
 ENUM_SIZES = [4, 3, 5, 2]
 ENUM_CLOSE = [None, 1, 2, 4]
 ENUM_NEW_LEN = 2   # the new close kind / str payloads are enumerated for scripts up to this length only (cost)
-ENDPOINTS = ('server', 'tcpclient', 'file', 'unixclient')
+ENDPOINTS = ('server', 'tcpclient', 'file', 'unixclient', 'unixserver')
+SERVERS = ('server', 'unixserver')
 
 BLOCK_LEN = 6 << 20
 _BLOCK = [None]
@@ -250,7 +251,7 @@ class Obs(BaseComponent):
 
     @handler('error', 'disconnect', 'disconnected', 'closed', channel='*', priority=100)
     def _signal(self, event, *args, **kwargs):
-        if self.ep == 'server':
+        if self.ep in SERVERS:
             if event.name == 'closed' or not args or args[0] is not self.main:
                 return
         elif self.ep != 'file' and event.name == 'closed':
@@ -259,7 +260,7 @@ class Obs(BaseComponent):
 
     @handler('write', channel='*', priority=100)
     def _on_write(self, event, *args, **kwargs):
-        if self.ep == 'server' and (not args or args[0] is not self.main):
+        if self.ep in SERVERS and (not args or args[0] is not self.main):
             return
         self.writes += 1
 
@@ -287,7 +288,7 @@ def _outcomes(big):
 class C11(Prop):
     id = 'C11'
     level = 'fault_enumeration'
-    rule = ('case = endpoint (TCPServer connection | TCPClient | UNIXClient | File) x list of payload sizes '
+    rule = ('case = endpoint (TCPServer connection | UNIXServer connection | TCPClient | UNIXClient | File) x list of payload sizes '
             '(0..64, 4096, 4097, 64 KiB+1, 1 MiB; thorough also 2 MiB+1 and 3 MiB) x script of send()/fd_write() outcomes '
             '(accept all | accept k of n | EAGAIN | EWOULDBLOCK | EINTR | ENOBUFS | EPIPE | ECONNRESET | ENOTCONN | '
             'ETIMEDOUT) x position of the close request (none, before/between/after the writes) x kind of close '
@@ -329,7 +330,7 @@ class C11(Prop):
             size = st.one_of(small, small, small, small, small, small,
                              st.sampled_from([4096, 4097] * 6 + [65537, 1 << 20]))
         return st.fixed_dictionaries({
-            'ep': st.sampled_from(['server'] * 3 + ['tcpclient'] * 3 + ['file'] * 3 + ['unixclient']),
+            'ep': st.sampled_from(['server'] * 3 + ['tcpclient'] * 3 + ['file'] * 3 + ['unixclient', 'unixserver']),
             'sizes': st.lists(size, min_size=1, max_size=8),
             'script': st.lists(_outcomes(big), max_size=12),
             'close': st.one_of(st.none(), st.integers(0, 8)),
@@ -366,9 +367,9 @@ class C11(Prop):
         if close_at is not None:
             close_at %= len(sizes) + 1
         pump = list(spec.get('pump') or [])
-        n_other = spec.get('other', 0) if ep == 'server' else 0
+        n_other = spec.get('other', 0) if ep in SERVERS else 0
         eof = close_at is not None and spec.get('closekind') == 'eof' and ep != 'file'
-        closeall = bool(spec.get('closeall')) and ep == 'server' and close_at is not None and not eof
+        closeall = bool(spec.get('closeall')) and ep in SERVERS and close_at is not None and not eof
         text = list(spec.get('text') or []) if ep == 'file' else []
         kinds = [text[i % len(text)] if text else 0 for i in range(len(sizes))]
 
@@ -397,8 +398,8 @@ class C11(Prop):
         still_writing = []
         state = {'stuck': False, 'setup': True, 'eof_fired': False}
         try:
-            if ep == 'server':
-                main = ScriptSock(spec['script'])
+            if ep in SERVERS:
+                main = ScriptSock(spec['script'], socket.AF_UNIX if ep == 'unixserver' else socket.AF_INET)
                 fds.append(main)
                 conns = [main]
                 if n_other:
@@ -407,7 +408,7 @@ class C11(Prop):
                     conns.append(other)
                 listen = Listen(conns)
                 fds.append(listen)
-                comp = TCPServer(listen, channel='server')
+                comp = (UNIXServer if ep == 'unixserver' else TCPServer)(listen, channel='server')
                 chan = 'server'
             elif ep == 'tcpclient':
                 main = ScriptSock(spec['script'])
@@ -462,7 +463,7 @@ class C11(Prop):
 
             if driver.settle(root, 50) < 0:
                 state['setup'] = False
-            if ep == 'server':
+            if ep in SERVERS:
                 for _ in conns:
                     root.fire(p_read(listen), chan)
                     driver.settle(root, 50)
@@ -496,7 +497,7 @@ class C11(Prop):
 
             for k, (op, i) in enumerate(ops):
                 if op == 'w':
-                    if ep == 'server':
+                    if ep in SERVERS:
                         root.fire(netev.write(main, payloads[i]), chan)
                     elif ep == 'file':
                         root.fire(ioev.write(payloads[i]), chan)
@@ -510,7 +511,7 @@ class C11(Prop):
                         state['eof_fired'] = True
                         root.fire(p_read(main), poller.getTarget(main))
                 else:
-                    if ep == 'server':
+                    if ep in SERVERS:
                         root.fire(netev.close() if closeall else netev.close(main), chan)
                     elif ep == 'file':
                         root.fire(ioev.close(), chan)
